@@ -957,6 +957,58 @@ def expand_array_from_fn(prog, d):
     return changed
 
 
+def expand_collect_string(prog, d):
+    """`let s: String = chain.collect()` over a lazy adapter yielding Strings is `let mut s = String::new(); s.extend(chain)`
+    (then expanded further by expand_extend)"""
+    blocks, locs = d["blocks"], d["locals"]
+    changed = False
+    for bi in range(len(blocks)):
+        b = blocks[bi]
+        if b["cleanup"] or b.get("collect_expanded"):
+            continue
+        t = b["term"]
+        if t["k"] != "call" or t["target"] < 0 or len(t["args"]) != 1 or t["dest"]["proj"]:
+            continue
+        c = _callee(t)
+        if not c.endswith("Iterator::collect") or locs[t["dest"]["local"]]["ty"] != "std::string::String":
+            continue
+        it_op = t["args"][0]
+        if it_op.get("k") not in ("copy", "move") or it_op["place"]["proj"]:
+            continue
+        ds = _def_sites(blocks, it_op["place"]["local"])
+        if len(ds) != 1 or ds[0][1] != "call":
+            continue
+        cc = _callee(ds[0][2])
+        if cc.rsplit("::", 1)[-1] not in LAZY_ADAPTERS or _closure_def(blocks, ds[0][2]["args"][-1]) is None:
+            continue
+        clo = _closure_def(blocks, ds[0][2]["args"][-1])
+        item_ty = None
+        if clo is not None and clo[1] in prog.fns:
+            item_ty = prog.fns[clo[1]].locals[0]["ty"]
+        # map yields the closure result, filter_map / from_fn its Some payload
+        if item_ty not in ("std::string::String", "std::option::Option<std::string::String>"):
+            continue
+        span = t.get("span", {"file": "", "l0": 0, "l1": 0, "exp": False})
+        line = span.get("l0", 0)
+        dest, target = t["dest"], t["target"]
+        locs.append({"ty": "&mut std::string::String", "name": ""})
+        r = len(locs) - 1
+        locs.append({"ty": "()", "name": ""})
+        u = len(locs) - 1
+        ext = "<std::string::String as std::iter::Extend<std::string::String>>::extend"
+        blocks.append({"cleanup": False, "stmts": [{"place": {"local": r, "proj": []}, "rv": {"k": "ref", "place": {"local": dest["local"], "proj": []}, "mut": True}, "line": line}],
+                       "term": {"k": "call", "callee": {"path": ext, "resolved": ext, "is_resolved": True, "local": False, "crate": "alloc", "args": []},
+                                "args": [{"k": "move", "place": {"local": r, "proj": []}}, it_op], "dest": {"local": u, "proj": []}, "target": target, "span": span},
+                       "expanded": "collect:string"})
+        nb = len(blocks) - 1
+        new = "std::string::String::new"
+        b["term"] = {"k": "call", "callee": {"path": new, "resolved": new, "is_resolved": True, "local": False, "crate": "alloc", "args": []},
+                     "args": [], "dest": dest, "target": nb, "span": span}
+        b["collect_expanded"] = True
+        changed = True
+    return changed
+
+
 def expand_extend(prog, d):
     """`v.extend(chain)` where chain is a lazy adapter with a closure (map / filter / filter_map / from_fn) is the loop
     `for x in chain { v.push(x) }` (push_back for a VecDeque); next() of the chain is then lowered by lower_lazy_next"""
@@ -1512,6 +1564,16 @@ class Inliner:
                     d2["blocks"] = copy.deepcopy(f.blocks)
                     d2["locals"] = list(f.locals)
                     if expand_array_from_fn(self.prog, d2):
+                        f = Fn(d2, f.crate)
+                        f.program = self.prog
+                        self.prog.fns[p] = f
+                        self.expanded += 1
+                        changed = True
+                if self.expand and LOWER_NEXT and any(b["term"]["k"] == "call" and not b["cleanup"] and _callee(b["term"]).endswith("Iterator::collect") and not b.get("collect_expanded") for b in f.blocks):
+                    d2 = dict(f.d)
+                    d2["blocks"] = copy.deepcopy(f.blocks)
+                    d2["locals"] = list(f.locals)
+                    if expand_collect_string(self.prog, d2):
                         f = Fn(d2, f.crate)
                         f.program = self.prog
                         self.prog.fns[p] = f
